@@ -207,15 +207,8 @@ func (w *World) Project(s *astisub.Subtitles, stripped bool) abs.Subs {
 		if it.Region != nil {
 			c.Rg = it.Region.ID
 		}
-		multi := false
-		for _, l := range it.Lines {
-			for _, li := range l.Items {
-				if li.Style != nil {
-					multi = true
-				}
-			}
-		}
-		if multi || (len(it.Lines) == 1 && len(it.Lines[0].Items) > 1) {
+		// one entry per text run of the first line ("" = the run references no style)
+		if len(it.Lines) > 0 {
 			for _, li := range it.Lines[0].Items {
 				if li.Style != nil {
 					c.Rs = append(c.Rs, li.Style.ID)
